@@ -446,6 +446,12 @@ def same_state(a: str, b: str) -> bool:
     to callback names (counted in _NAME_ONLY, reported in the evidence, never an alarm by itself)"""
     if a == b:
         return True
+    for ghost in ("slog", "tx"):
+        if f" {ghost}=[?]" in a:   # ghost not observable on the implementation (private name changed): not compared
+            a = re.sub(rf" {ghost}=\[[^\]]*\]", "", a)
+            b = re.sub(rf" {ghost}=\[[^\]]*\]", "", b)
+    if a == b:
+        return True
     ca, cb = canon_state(a), canon_state(b)
     if ca == cb:
         return True
